@@ -237,3 +237,28 @@ Proof.
   - rewrite IH by (apply step_inv; exact H).
     destruct (step_refines_list s o H) as [E _]. rewrite E. reflexivity.
 Qed.
+
+(* the id maps to the LAST object of the list that carries it *)
+Lemma spec_lookup_last l a u : spec_lookup l a = Some u ->
+  exists l1 l2, l = l1 ++ (u, a) :: l2 /\ (forall u', ~ In (u', a) l2).
+Proof.
+  induction l as [|[u0 a0] l IH]; simpl; [discriminate|].
+  destruct (spec_lookup l a) as [u1|] eqn:E.
+  - intro H. injection H as ->. destruct (IH eq_refl) as [l1 [l2 [Hl Hn]]].
+    exists ((u0, a0) :: l1), l2. split; [rewrite Hl; reflexivity | exact Hn].
+  - unfold oid, ouid. simpl. destruct (N.eqb a a0) eqn:Ea; [|discriminate].
+    apply N.eqb_eq in Ea. subst a0. intro H. injection H as ->.
+    exists [], l. split; [reflexivity|].
+    intros u' Hin. apply (spec_lookup_complete l a u') in Hin. contradiction.
+Qed.
+
+Lemma lookup_is_last s a u : Inv s -> iget (index s) a = Some u ->
+  exists l1 l2, items s = l1 ++ (u, a) :: l2 /\ (forall u', ~ In (u', a) l2).
+Proof. intros H E. rewrite (H a) in E. apply spec_lookup_last. exact E. Qed.
+
+Lemma index_function_of_items ops a :
+  iget (index (run init ops)) a = iget (reindex (items (run init ops))) a.
+Proof. rewrite iget_reindex. apply (run_inv ops init Inv_init). Qed.
+
+Lemma get_model_total s a : get_model s a = Ok (iget (index s) a).
+Proof. unfold get_model. destruct (iget (index s) a); reflexivity. Qed.
